@@ -121,8 +121,28 @@ class Scenario(Session):
         self.connected = False; self.broker_out = bytearray(); self.held = []
 
     # ---------------------------------------------------------------- broker
+    def damage(self, data):
+        """hostile broker: the packet is damaged (or replaced) before it is sent"""
+        rng = self.rng; b = bytearray(data)
+        k = rng.choice(["trunc", "flip", "byte", "len", "insert", "random", "extend", "flags", "shortprops", "rl", "zero-rl", "pid0"])
+        if k == "trunc" and len(b) > 1: del b[rng.randrange(1, len(b)):]
+        elif k == "flip": i = rng.randrange(len(b)); b[i] ^= 1 << rng.randrange(8)
+        elif k == "byte": i = rng.randrange(len(b)); b[i] = (b[i] + rng.choice([1, 255])) & 0xFF
+        elif k == "len": i = rng.randrange(len(b)); b[i] = rng.choice([0x7F, 0x80, 0xFF, 0x00])
+        elif k == "insert": i = rng.randint(0, len(b)); b[i:i] = bytes(rng.randrange(256) for _ in range(rng.randint(1, 4)))
+        elif k == "random": b = bytearray(rng.randrange(256) for _ in range(rng.randint(1, 24)))
+        elif k == "extend": b += bytes(rng.randrange(256) for _ in range(rng.randint(1, 6)))
+        elif k == "flags": b[0] = (b[0] & 0xF0) | rng.randrange(16)
+        elif k == "shortprops" and len(b) > 4: i = rng.randrange(2, len(b)); b[i] = rng.randrange(b[i]) if b[i] else 1
+        elif k == "rl" and len(b) > 1: b[1] = (b[1] + rng.choice([1, 2, 255, 254])) & 0x7F
+        elif k == "zero-rl" and len(b) > 1: b[1:] = b"\x00"
+        elif k == "pid0" and len(b) >= 4 and (b[0] >> 4) in (4, 5, 6, 7, 9, 11): b[2] = b[3] = 0
+        self.count("hostile-" + k)
+        return bytes(b)
+
     def q(self, data, hold=False):
         if self.silent_broker: return
+        if self.hostile and self.rng.random() < 0.12: data = self.damage(data)
         if hold or self.held or (self.rng.random() < 0.08): self.held.append(bytes(data))      # a stalled broker: later replies queue behind (order kept)
         else: self.broker_out += data
 
